@@ -27,7 +27,8 @@ type Ctx struct {
 	RepoFns  []*ssa.Function         // every function (incl. anonymous) declared in a repo package, non-test
 	fnByName map[string]*ssa.Function
 
-	cg *callGraph // lazily built
+	cg        *callGraph // lazily built
+	cancelers map[*ssa.Function]bool
 
 	Tier string
 
@@ -37,6 +38,7 @@ type Ctx struct {
 	findings    []findingLine
 	Stats       map[string]int
 	Notes       []string
+	Renames     []string // anchors resolved to renamed functions/fields (anchors.go)
 	explanation []string
 	extra       map[string]any
 }
@@ -157,6 +159,18 @@ func (c *Ctx) fnName(f *ssa.Function) string {
 		return "<nil>"
 	}
 	s := f.String()
+	if len(fnAlias) > 0 {
+		root := f
+		for root.Parent() != nil {
+			root = root.Parent()
+		}
+		if old, ok := fnAlias[root]; ok {
+			rs := root.String()
+			if strings.HasSuffix(rs, "."+root.Name()) {
+				s = rs[:len(rs)-len(root.Name())] + old + strings.TrimPrefix(s, rs)
+			}
+		}
+	}
 	s = strings.ReplaceAll(s, repoModule+"/internal/step/", "")
 	s = strings.ReplaceAll(s, repoModule+"/internal/", "")
 	s = strings.ReplaceAll(s, repoModule+"/cmd/", "cmd/")
